@@ -171,7 +171,7 @@ class World:
         if k == 'builtin':
             # attribute of a real class / function object (e.g. zlib.MAX_WBITS handled through module)
             return self.lift(getattr(h.obj, attr))
-        if k == 'opaque':
+        if k in ('opaque', 'disposable'):
             return Bound(h, attr)
         raise Unsupported(f'attribute {attr} of host {h.kind}')
 
@@ -234,6 +234,8 @@ class World:
                 if name == 'connect':
                     p.ghost['subs'] = p.ghost.get('subs', []) + [(o, {'connect': True})]
                     return [(p, Host('disposable'))]
+            if k == 'disposable':
+                return [(p, None)]
             if k == 'store':
                 from . import storemodel
                 return storemodel.store_call(eng, p, o, name, args, kws)
